@@ -32,7 +32,8 @@ extern int mpt_string_nextvis(const char **pos)
 		if (!(curr = *(++str))) {
 			return MPT_ERROR(MissingData);
 		}
-		if (!isgraph(curr)) {
+		/* further white space is skipped by the loop */
+		if (!isgraph(curr) && !isspace(curr)) {
 			return MPT_ERROR(BadValue);
 		}
 	}
